@@ -183,11 +183,19 @@ int main(int argc, char **argv) {
   // (cases.hpp runs consecutive cases in one child, so wrap each case in its own fork)
   auto inner = sp.run;
   sp.run = [inner](const Case &c) {
+    // every confirmed hang costs minutes; after two of them this shard has its verdict (the check fails) and skips the rest - reported as a cap
+    static int hangs = 0;
+    if (hangs >= 2) {
+      static bool told = false;
+      if (!told) { told = true; J().s("t", "cov").n("stopped_after_repeated_hangs", 1).emit(); }
+      return std::string("+skipped-after-repeated-hangs");
+    }
     std::string res = "internal|no result";
     run_batch(1, [&](long) { return inner(c); }, [&](long, const CaseResult &cr) {
       if (cr.died) res = "abnormal-end:" + std::string(cr.exitcode == 42 ? "deadlock" : cr.exitcode == 77 ? "memory-error(ASan)" : cr.timeout ? "hang" : "crash") + "|history " + c.str("h") + " did not run to its end: " + describe_death(cr);
       else res = cr.obs;
     }, 15);
+    if (res.rfind("abnormal-end:hang", 0) == 0) hangs++;
     return res;
   };
   // solo observations are part of the report
